@@ -1,12 +1,12 @@
 PROP = dict(
     id='C16', level='exploration',
-    pyvc=[],
+    pyvc=['contracts.c16'],
     finite=[],
     bounded='bounded.c16',
     bounded_budget=dict(quick=45, thorough=420),
     assumptions=[],
     trusted_base=['z3 5.1 / cvc5 1.0.3', 'pyvc symbolic executor and its encoding of Python (DESIGN.md section 2.3)', 'CPython 3.12, PLY 3.11 (A-PLY)'],
-    manifest=dict(text='Bounded: every arrangement of up to 6/7 instances into chains and rings, both phrases, every creation order; termination under a timer for arbitrary subsets.',
+    manifest=dict(text='Deductive core (tier P, 4 obligations): only the two guard paths of sort_reflexive (a collection that is not a QuerySet is rejected with MetaException; an empty QuerySet sorts to an empty QuerySet). Bounded: every arrangement of up to 6/7 instances into chains and rings, both phrases, every creation order; termination under a timer for arbitrary subsets.',
                   note='Orbit lemma (L-ORBIT) not needed at this level; cardinality respected on the reflexive link.',
-                  technique='bounded stand-in (run-time contracts on the real functions driven by small-scope enumeration; labelled bounded, never counted as proved); no function of this property is within the reach of the deductive tier yet (reasons in DESIGN.md, build-round status)'),
+                  technique='bounded stand-in (run-time contracts on the real functions driven by small-scope enumeration; labelled bounded, never counted as proved); contract-based deductive verification (pyvc) only for the guard paths of sort_reflexive, reported separately as tier P; the search for the opposite phrase (for/else) and the walk (nested generator with a filter closure) are outside the reach of the verifier'),
 )
